@@ -91,9 +91,11 @@ QUICK_OPS = ["mr:T1/B1/m1", "mr:T1/B1/m1/vr", "mr:T1/B1/m1/large", "mr:T1/B1/m0"
              "mr:far/m1", "mr:far/m1/vr", "mr:far/m1/large", "mr:far/m0",
              "mr:78/B1/m1", "mr:78/dark/m1", "mr:T2/B1/m0/vr", "mr:T1/B2/m1", "mr:T3/B1/m1", "ir:T1/B1",
              "P.mr:m1", "P.mr:m0/vr", "P.mr:m2", "P.ir", "bulk:T1B1,T3B2", "bulk:T3B2,T1B1", "cli:sheet", "show:T1/B1",
-             "mr:rgba/B1/m1", "mr:hsl/B1/m1", "mr:chroma/mid/m1"]
-THOROUGH_OPS = QUICK_OPS + ["mr:T3/B1/m0", "mr:aaa/B1/m1", "bulk:T2B1,T1B1/m0/vr", "bulk:T1B1large,bad", "new:bad", "mr:78/B1/m0",
-                            "cli:sheet/premium", "mr:yellow/B1/m2"]
+             "mr:rgba/B1/m1", "mr:hsl/B1/m1", "mr:chroma/mid/m1",
+             # the deepest path of each mode, and a strict-mode probe that needs the last tolerance of the schedule
+             "mr:yellow/B1/m2", "mr:T3/B1/m0"]
+THOROUGH_OPS = QUICK_OPS + ["mr:aaa/B1/m1", "bulk:T2B1,T1B1/m0/vr", "bulk:T1B1large,bad", "new:bad", "mr:78/B1/m0",
+                            "cli:sheet/premium"]
 
 
 def _jsonable(x):
